@@ -316,6 +316,8 @@ where
                 let packet_id = pubrel.packet_identifier;
                 Self::ack::<PubcompReason>(tx, packet_id).await?
             }
+            // Not expected while running; there is no pending operation they could complete.
+            RxPacket::Connack(_) | RxPacket::Auth(_) => {}
             other => {
                 let action_id = utils::rx_action_id(&other);
 
